@@ -51,6 +51,12 @@ def native_kind(m, kind, v, rng, over_precise=False, foreign_meta=False):
     k = kind["k"]
     if k == "ts" and isinstance(v, str):
         return dt_from_text(v, rng, kind, over_precise, foreign_meta)
+    if k == "binary" and isinstance(v, str) and rng.random() < 0.5:
+        # base64 text as Python programs usually have it: the bytes base64.b64encode() returned
+        try:
+            return v.encode("ascii") if rng.random() < 0.8 else bytearray(v.encode("ascii"))
+        except UnicodeEncodeError:
+            return v
     if k == "list" and isinstance(v, list):
         out = [native_kind(m, kind["of"], x, rng, over_precise, foreign_meta) for x in v]
         if len(out) == 1 and kind["of"]["k"] in ("string", "openvocab", "enum", "embedded", "ref") and rng.random() < 0.3 \
